@@ -144,14 +144,24 @@ class Sched:
     that makes no progress for `timeout` seconds (blocked inside C code): that
     thread is marked `stuck` and the token is given to another runnable thread."""
 
-    def __init__(self, files, timeout=3.0, max_steps=200000):
+    def __init__(self, files, timeout=3.0, max_steps=200000, probe=None):
         self.files = set(files)
         self.timeout = timeout
         self.max_steps = max_steps
+        self.probe = probe
 
     # ---- called from worker threads
     def tid(self):
         return getattr(self.tls, "tid", None)
+
+    def mark(self, data):
+        """Explicit yield point of a thunk (e.g. just before a class attribute lookup):
+        the thread may be pre-empted here; the entry is logged when it continues."""
+        tid = self.tid()
+        if tid is None or self.free:
+            return
+        self._yield(tid, "line")
+        self.log.append((tid, "mark", data))
 
     def event(self, tid, kind, data=None):
         self.log.append((tid, kind, data))
@@ -222,8 +232,10 @@ class Sched:
         if event == "line" and not self.free:
             tid = self.tls.tid
             code = frame.f_code
-            self.log.append((tid, "line", (code.co_filename, frame.f_lineno, code.co_name)))
+            # park first, log when resumed: the log is in execution order
             self._yield(tid, "line")
+            extra = self.probe(frame) if self.probe is not None else None
+            self.log.append((tid, "line", (code.co_filename, frame.f_lineno, code.co_name, extra)))
         return self._local_trace
 
     def _body(self, tid, thunk):
